@@ -112,6 +112,9 @@ class ChainNode(Entity):
 
         # CRAQ: track keys with uncommitted writes
         self._dirty_keys: set[str] = set()
+        # Highest write sequence applied here per key: the network may reorder
+        # Propagate messages, and an older write must never overwrite a newer one.
+        self._applied_seq: dict[str, int] = {}
 
         # Pending write futures (HEAD: seq -> SimFuture)
         self._pending_writes: dict[int, SimFuture] = {}
@@ -254,11 +257,17 @@ class ChainNode(Entity):
 
         self._propagations_received += 1
 
-        # Apply locally
-        yield from self._store.put(key, value)
-
-        if self._craq_enabled:
-            self._dirty_keys.add(key)
+        if seq < self._applied_seq.get(key, 0):
+            # Stale: a newer write of this key overtook this one in flight. Do not
+            # overwrite it; spend the store's write latency so that everything
+            # downstream (forwarding, ack) still follows the newer application.
+            yield getattr(self._store, "write_latency", 0.0)
+        else:
+            # Apply locally
+            self._applied_seq[key] = seq
+            yield from self._store.put(key, value)
+            if self._craq_enabled:
+                self._dirty_keys.add(key)
 
         if self._role == ChainNodeRole.TAIL:
             # Send ack back to head
